@@ -3,6 +3,7 @@ package props
 import (
 	"bytes"
 	"fmt"
+	"regexp"
 	"strings"
 
 	"github.com/yuin/goldmark"
@@ -251,6 +252,8 @@ type c12Util struct {
 
 var c12Filter = util.NewBytesFilterString("class,id,title")
 
+var c12Re = regexp.MustCompile(`^[ ]*([a-z]+)(?:\s*=\s*("[^"]*"))?`)
+
 var c12Utils = []c12Util{
 	{"EscapeHTML", func(b []byte) { _ = util.EscapeHTML(b) }},
 	{"UnescapePunctuations", func(b []byte) { _ = util.UnescapePunctuations(b) }},
@@ -280,6 +283,108 @@ var c12Utils = []c12Util{
 		if len(b) > 1 {
 			s2 := text.Segment{Start: 0, Stop: len(b) - 1, ForceNewline: true}
 			_ = s2.Value(b)
+		}
+	}},
+	{"CopyOnWriteBuffer", func(b []byte) {
+		// a copy-on-write buffer over the caller's bytes (spare capacity included) must copy before its first change
+		for k := 0; k < 6; k++ {
+			w := util.NewCopyOnWriteBuffer(b)
+			switch k {
+			case 0:
+				w.Append([]byte("x"))
+			case 1:
+				w.AppendByte('x')
+			case 2:
+				w.AppendString("xy")
+			case 3:
+				w.Write([]byte("x"))
+			case 4:
+				_ = w.WriteByte('x')
+			default:
+				w.WriteString("xy")
+			}
+			w.AppendByte('z')
+			_ = w.Bytes()
+		}
+	}},
+	{"ReadWhile/Dedent/TrimLength/ToRune", func(b []byte) {
+		_, _ = util.ReadWhile(b, [2]int{0, len(b)}, util.IsAlphaNumeric)
+		_, _ = util.DedentPosition(b, 0, 4)
+		_, _ = util.DedentPositionPadding(b, 0, 1, 4)
+		_ = util.TrimLeftLength(b, []byte(" >"))
+		_ = util.TrimRightLength(b, []byte(" \n"))
+		_ = util.TrimLeftSpaceLength(b)
+		_ = util.TrimRightSpaceLength(b)
+		for i := range b {
+			_ = util.ToRune(b, i)
+			_ = util.UTF8Len(b[i])
+			if i > 64 {
+				break
+			}
+		}
+	}},
+	{"BytesFilter.Add/Extend(source slice)", func(b []byte) {
+		// a filter that is handed a sub-slice of the source keeps (at most) a reference: later additions must not land in it
+		if len(b) < 4 {
+			return
+		}
+		f := util.NewBytesFilter(b[:2:2], b[1:3])
+		f.Add(b[:3])
+		g := f.Extend(b[2:4], []byte("zz"))
+		g.Add([]byte("another"))
+		_ = g.ExtendString("p,q").Contains(b[:2])
+	}},
+	{"Segment methods", func(b []byte) {
+		sg := text.NewSegment(0, len(b))
+		_ = sg.TrimLeftSpace(b)
+		_ = sg.TrimRightSpace(b)
+		_ = sg.TrimLeftSpaceWidth(3, b)
+		sp := text.NewSegmentPadding(0, len(b), 3)
+		_ = sp.Value(b)
+		_ = sp.ConcatPadding(nil) // (appends to its argument by contract, like append: never handed the source)
+		ss := text.NewSegments()
+		ss.Append(sg)
+		ss.Append(sp)
+		_ = ss.Value(b)
+	}},
+	{"Reader helpers", func(b []byte) {
+		r := text.NewReader(b)
+		for i := 0; i < 6; i++ {
+			if l, _ := r.PeekLine(); l == nil {
+				break
+			}
+			_ = r.Match(c12Re)
+			_ = r.FindSubMatch(c12Re)
+			r.SkipBlankLines()
+			_, _, _ = r.SkipSpaces()
+			r.ReadRune()
+			r.Advance(1)
+		}
+		ss := text.NewSegments()
+		for _, l := range bytes.SplitAfter(b, []byte("\n")) {
+			_ = l
+		}
+		off := 0
+		for off < len(b) && ss.Len() < 6 {
+			e := bytes.IndexByte(b[off:], '\n')
+			if e < 0 {
+				e = len(b) - off - 1
+			}
+			ss.Append(text.NewSegmentPadding(off, off+e+1, ss.Len()%3))
+			off += e + 1
+		}
+		if ss.Len() > 0 {
+			br := text.NewBlockReader(b, ss)
+			for i := 0; i < 8; i++ {
+				if l, _ := br.PeekLine(); l == nil {
+					break
+				}
+				_ = br.Match(c12Re)
+				br.FindClosure('`', '`', text.FindClosureOptions{Newline: true, Advance: i%2 == 0})
+				_, _, _ = br.SkipSpaces()
+				br.Advance(1)
+			}
+			_ = br.Value(text.NewSegment(0, len(b)))
 		}
 	}},
 	{"Reader/BlockReader", func(b []byte) {
